@@ -333,6 +333,15 @@ def sib_export(ctx: Ctx) -> List[Ob]:
     return obs
 
 
+def _res(ctx: Ctx, f, at: ast.AST, e: ast.AST) -> ast.AST:
+    from .util import resolve_expr
+
+    try:
+        return resolve_expr(ctx, f, at, e)
+    except Exception:  # noqa: BLE001 - resolution is best effort
+        return e
+
+
 # ------------------------------------------------------------------- C16
 @rule("RENDER", ["C16"], floor=15, section="3.8")
 def render(ctx: Ctx) -> List[Ob]:
@@ -699,8 +708,8 @@ def diff(ctx: Ctx) -> List[Ob]:
                 e = match(f"{p2}.add($x)", v) or match(f"{p2}.add_child($x)", v) or match(f"{p2}.append_child($x)", v)
                 if e is not None:
                     for b in env.scope(g).resolve(e["$x"])[1]:
-                        if b.kind in ("elem", "elempart") and f"{src}.children" in norm(b.expr):
-                            good = True
+                        if b.kind in ("elem", "elempart") and (f"{src}.children" in norm(b.expr) or f"{src}.children" in norm(_res(ctx, g, c, b.expr))):
+                            good = True  # (a local that holds the child list stands for it)
             ok = ok and good
         O(cmp_, f"DC.{member} marks copies of children of the {'first' if src == p0 else 'second'} tree's node", ok,
           f"the mark must sit on result nodes copied from `{src}.children`")
@@ -766,7 +775,7 @@ def diff(ctx: Ctx) -> List[Ob]:
         obs.append(ctx.tri("DIFF", ["C11"], cc_, "_copy_children copies the whole branch (the recursion does not depend on the mark)", None, not dep_,
                            f"recursion under {dep_}: only the marked level and its children are copied, deeper descendants of an added branch are missing"))
     fc = [c for c in ast.walk(cmp_.node) if isinstance(c, ast.Call) and norm(c.func) == "_find_child"]
-    O(cmp_, "peers of first-tree children are searched among the second node's children", len(fc) == 1 and norm(fc[0].args[0]) == f"{p1}.children")
+    O(cmp_, "peers of first-tree children are searched among the second node's children", len(fc) == 1 and norm(_res(ctx, cmp_, fc[0], fc[0].args[0])) == f"{p1}.children")
     om = [c for c in ast.walk(cmp_.node) if isinstance(c, ast.Call) and isinstance(c.func, ast.Attribute) and c.func.attr == "set_meta"
           and len(c.args) > 1 and isinstance(c.args[1], ast.Tuple)]
     ok = len(om) == 1
